@@ -70,6 +70,11 @@ CHECKS["C16"] = dict(technique="property-based testing with a recording hash cal
                      note="Trusted: reference group law, library pairing (C01; reference pairing on a subset).",
                      ref="DESIGN.md section 4, C16")
 
+CHECKS["C17"] = dict(technique="coverage-guided fuzzing (libFuzzer + ASan + UBSan) of the length-discovery/unmarshal protocol with a round-trip oracle in the target, plus the Hypothesis suites re-run against ASan+UBSan builds of the library",
+                     engine="libfuzzer+sanitizers",
+                     note="Trusted: sanitizer detection of the access classes; 32-bit-word configuration on a 64-bit host; fuzz campaigns are pinned only approximately by -seed (saved artifacts are the reproducible unit).",
+                     ref="DESIGN.md section 4, C17")
+
 PENDING = {}
 
 
@@ -125,7 +130,7 @@ def main():
         pass
 
 
-ENGINE_TEXT = {}
+ENGINE_TEXT = {"libfuzzer+sanitizers": "clang libFuzzer target fuzz/fz_unmarshal.cpp built with -fsanitize=fuzzer,address,undefined from the working tree; g++ ASan+UBSan shim builds preloaded into the Hypothesis workers"}
 
 if __name__ == "__main__":
     main()
